@@ -14,6 +14,7 @@ import (
 	"io/fs"
 	"os"
 	"os/exec"
+	"path"
 	"path/filepath"
 	"sort"
 	"strings"
@@ -239,6 +240,15 @@ func (o Options) Prefix() string {
 	if o.PkgPrefix == "" {
 		return "genout/gen"
 	}
+	return path.Clean(o.PkgPrefix)
+}
+
+// PrefixArg is the prefix as given on the command line (possibly not in clean
+// form, e.g. with a trailing slash); Prefix is the import path it denotes.
+func (o Options) PrefixArg() string {
+	if o.PkgPrefix == "" {
+		return "genout/gen"
+	}
 	return o.PkgPrefix
 }
 
@@ -426,7 +436,7 @@ func (j *Job) GenArgs(scratch, file string) []string {
 // GenArgsTo is GenArgs with an explicit output directory.
 func (j *Job) GenArgsTo(scratch, outDir, file string) []string {
 	o := j.Opts
-	args := []string{"--out", outDir, "--pkg-prefix", o.Prefix()}
+	args := []string{"--out", outDir, "--pkg-prefix", o.PrefixArg()}
 	if o.NoZap {
 		args = append(args, "--no-zap")
 	}
